@@ -32,8 +32,12 @@ RULES = {
     "R7": "read before overwrite (shared with C08-R5): already-external tensors that stay inline (at or below the size "
     "threshold) are loaded into memory before the data file they live in can be replaced by the write - afterwards "
     "their offsets would be read from the new file and yield another tensor's bytes",
+    "R8": "completion order never becomes data order: results of concurrently submitted work are gathered by iterating the "
+    "list of futures in submission order; a loop over concurrent.futures.as_completed(...) / wait(...) only surfaces "
+    "exceptions (`future.result()` as a statement) - the external tensors are paired with the initializers position by "
+    "position, so results gathered in completion order attach one initializer's name to another's dtype, shape and bytes",
 }
-FLOORS = {"R1": 4, "R2": 4, "R3": 20, "R4": 1, "R5": 3, "R6": 25, "R7": 1}
+FLOORS = {"R1": 4, "R2": 4, "R3": 20, "R4": 1, "R5": 3, "R6": 25, "R7": 1, "R8": 2}
 EXPLANATION = (
     "Class-qualified effect summaries of the try bodies and finally blocks of the two save entry points; data-flow "
     "checks on the initializer collection loops and on the offset accumulators; table agreement between the "
@@ -387,7 +391,41 @@ def rule_r6(ctx):
     ctx.require(n >= 25, f"only {n} same-named option bindings examined")
 
 
+def rule_r8(ctx):
+    n = 0
+    for mn in ("onnx_ir.external_data", "onnx_ir._safetensors", "onnx_ir._io"):
+        m = ctx.repo.modules.get(mn)
+        if m is None:
+            continue
+        for f in m.all_funcs:
+            if isinstance(f.node, ast.Lambda):
+                continue
+            for lp in own_nodes(f.node):
+                if not isinstance(lp, ast.For):
+                    continue
+                unordered = [c for c in ast.walk(lp.iter) if isinstance(c, ast.Call) and (dotted_of(c.func) or "").split(".")[-1] in ("as_completed", "wait")]
+                tvars = {x.id for x in ast.walk(lp.target) if isinstance(x, ast.Name)}
+                results = [c for b in lp.body for c in ast.walk(b) if isinstance(c, ast.Call) and isinstance(c.func, ast.Attribute) and c.func.attr == "result"
+                           and isinstance(c.func.value, ast.Name) and c.func.value.id in tvars]
+                if not results:
+                    continue
+                n += 1
+                used = [c for c in results if not isinstance(getattr(c, "_parent", None), ast.Expr)]
+                if unordered:
+                    ctx.check("R8", f"{f.local}: loop over {short(norm(lp.iter))} only surfaces exceptions", not used, f, used[0] if used else lp,
+                              f"the value of `{norm(used[0]) if used else ''}` is used inside a loop over `{norm(lp.iter)}`, which yields futures in completion "
+                              "order: the gathered sequence no longer follows the order in which the work was submitted, while its consumer pairs it "
+                              "position by position with the initializers",
+                              how="loops over as_completed()/wait(): result() may only be an expression statement",
+                              construct=f"result of {short(norm(lp.iter))} used")
+                else:
+                    ctx.ob("R8", f"{f.local}: results gathered by iterating `{short(norm(lp.iter))}` (submission order)", True,
+                           how="the loop iterates the list of futures itself")
+    ctx.require(n >= 2, f"only {n} loops gathering future results found")
+
+
 def run(ctx):
+    rule_r8(ctx)
     ef = ctx._shared.get("effects")
     if ef is None:
         ef = ctx._shared["effects"] = Effects(ctx.repo, ctx.typer, tier4=(ctx.tier == "thorough"))
